@@ -95,7 +95,8 @@ def run_property(prop, tier='quick', seed=0, out=sys.stdout):
     quals = sorted(q for q, c in REG.contracts.items() if prop in c.props and not c.assumed)
     lemmas = [nm for nm, props, fn in REG.lemmas if prop in props]
     ctx = mp.get_context('fork')
-    with ctx.Pool(min(procs, max(1, len(quals)))) as pool:
+    # one fresh process per function: no state (interned codes, caches) can leak from one function's verification to another's
+    with ctx.Pool(min(procs, max(1, len(quals))), maxtasksperchild=1) as pool:
         reps = pool.map(gen_function, [(q,) for q in quals], chunksize=1)
     lem_obs = [gen_lemma((nm,)) for nm in lemmas]
     # ---- collect the property's obligations
